@@ -5,9 +5,12 @@
      C14_reset_is_fresh        after Free's reset a coder behaves like a new one for EVERY later use
      C14_no_alias              every string/[]byte reachable from a decoded value is Owned
      C14_registry_linearizable in every interleaving each call writes what it writes alone
-   On the faithful model the first holds for decoders and fails for encoders (off/Writer survive),
-   the third fails for the unlocked encoder registry with fresh types; each failure is a
-   [_refuted] theorem with a witness and a [_partial] theorem under the exact guard.
+   On the faithful model ([as_found]) the first fails for encoders (off and Writer survive) and for
+   decoders (a caller's slice survives as read buffer), the third fails for the unlocked encoder
+   registry with fresh types; each failure is a [_refuted] theorem with a witness and a [_partial]
+   theorem under the exact guard.  The generic theorems are stated for every [variant] (the
+   repairs of hooks/c14-fix-*.patch are flags of the model); the [_fixed] theorems say that with
+   the repairs the guards disappear.
 
    Limits: the registry LTS has sequentially consistent atomic steps (one sync.Map method, one
    read/write of the fields word); data-race freedom in the sense of the Go memory model is
@@ -25,26 +28,36 @@ Local Open Scope nat_scope.
 (* FreeEncoder = Simple(false).ResetBuffer() clears buffer, error, mode, reference table and
    class table -- and leaves exactly two fields as they were: off and Writer *)
 Theorem C14_free_encoder_keeps_only_off_and_writer :
-  forall (RT CT ER WR : Type) (rt0 : RT) (ct0 : CT) (s : enc RT CT ER WR),
-  free_enc RT CT ER WR rt0 ct0 s =
-  {| e_buf := []; e_off := e_off s; e_simple := false; e_refer := rt0; e_cls := ct0;
-     e_writer := e_writer s; e_err := None |}.
+  forall (RT CT ER WR : Type) (rt0 : RT) (ct0 : CT) (vr : variant) (s : enc RT CT ER WR),
+  free_enc RT CT ER WR rt0 ct0 vr s =
+  {| e_buf := []; e_off := if v_resetbuffer_off vr then 0 else e_off s; e_simple := false; e_refer := rt0;
+     e_cls := ct0; e_writer := if v_free_writer vr then None else e_writer s; e_err := None |}.
 Proof. exact free_enc_char. Qed.
 Print Assumptions C14_free_encoder_keeps_only_off_and_writer.
 
 (* guard: nothing was ever flushed to a writer and no writer is attached *)
 Theorem C14_reset_is_fresh_encoder_partial :
-  forall (V RT CT ER WR : Type) (rt0 : RT) (ct0 : CT) (ser : bool -> bool -> RT -> CT -> V -> ser_res RT CT ER)
-         (s : enc RT CT ER WR),
+  forall (V RT CT ER WR : Type) (rt0 : RT) (ct0 : CT) (vr : variant)
+         (ser : bool -> bool -> RT -> CT -> V -> ser_res RT CT ER) (s : enc RT CT ER WR),
   e_off s = 0 /\ e_writer s = None ->
-  enc_fresh_equiv V RT CT ER WR rt0 ct0 ser (free_enc RT CT ER WR rt0 ct0 s).
+  enc_fresh_equiv V RT CT ER WR rt0 ct0 vr ser (free_enc RT CT ER WR rt0 ct0 vr s).
 Proof. exact free_enc_fresh_partial. Qed.
 Print Assumptions C14_reset_is_fresh_encoder_partial.
+
+(* with hooks/c14-fix-encoder-reset.patch (ResetBuffer resets off, FreeEncoder detaches the Writer)
+   the full-strength statement holds: EVERY released encoder is like a new one *)
+Theorem C14_reset_is_fresh_encoder_fixed :
+  forall (V RT CT ER WR : Type) (rt0 : RT) (ct0 : CT) (vr : variant)
+         (ser : bool -> bool -> RT -> CT -> V -> ser_res RT CT ER) (s : enc RT CT ER WR),
+  v_resetbuffer_off vr = true -> v_free_writer vr = true ->
+  enc_fresh_equiv V RT CT ER WR rt0 ct0 vr ser (free_enc RT CT ER WR rt0 ct0 vr s).
+Proof. exact free_enc_fresh_fixed. Qed.
+Print Assumptions C14_reset_is_fresh_encoder_fixed.
 
 (* reachable through the pool: io.GetEncoder(); enc.Writer = w; Encode; io.FreeEncoder(enc) (or
    FreeEncoder(NewEncoder(w))): the released encoder is NOT like a new one *)
 Theorem C14_reset_is_fresh_encoder_refuted :
-  ~ enc_fresh_equiv val crefer ccls cerr N crefer0 ccls0 cser
+  ~ enc_fresh_equiv val crefer ccls cerr N crefer0 ccls0 as_found cser
       (c_free_enc (fst (c_enc_run c_new_enc hist_writer))).
 Proof. exact pool_writer_refuted. Qed.
 Print Assumptions C14_reset_is_fresh_encoder_refuted.
@@ -60,7 +73,7 @@ Print Assumptions C14_pooled_writer_leak.
 
 (* the offset alone is enough (writer detached before Free) *)
 Theorem C14_reset_is_fresh_encoder_refuted_off :
-  ~ enc_fresh_equiv val crefer ccls cerr N crefer0 ccls0 cser
+  ~ enc_fresh_equiv val crefer ccls cerr N crefer0 ccls0 as_found cser
       (c_free_enc (fst (c_enc_run c_new_enc hist_off))).
 Proof. exact pool_off_refuted. Qed.
 Print Assumptions C14_reset_is_fresh_encoder_refuted_off.
@@ -78,22 +91,36 @@ Print Assumptions C14_resetbuffer_refuted.
    except assigning Writer), over ALL histories of uses and ALL choices of the pool: every use
    observes exactly what it observes on a new encoder, and the pool stays all-new *)
 Theorem C14_pool_encoder_sessions :
-  forall (V RT CT ER WR : Type) (rt0 : RT) (ct0 : CT) (ser : bool -> bool -> RT -> CT -> V -> ser_res RT CT ER)
+  forall (V RT CT ER WR : Type) (rt0 : RT) (ct0 : CT) (vr : variant)
+         (ser : bool -> bool -> RT -> CT -> V -> ser_res RT CT ER)
          (l : list (esession V WR)) (p : epool RT CT ER WR),
   Forall (fun e => e = new_enc RT CT ER WR rt0 ct0) p ->
   Forall (fun ss => forallb lib_eop (es_ops ss) = true) l ->
-  Forall (fun e => e = new_enc RT CT ER WR rt0 ct0) (fst (esessions_run V RT CT ER WR rt0 ct0 ser p l)) /\
-  snd (esessions_run V RT CT ER WR rt0 ct0 ser p l) =
-    map (fun ss => snd (enc_run V RT CT ER WR rt0 ct0 ser (new_enc RT CT ER WR rt0 ct0) (es_ops ss))) l.
+  Forall (fun e => e = new_enc RT CT ER WR rt0 ct0) (fst (esessions_run V RT CT ER WR rt0 ct0 vr ser p l)) /\
+  snd (esessions_run V RT CT ER WR rt0 ct0 vr ser p l) =
+    map (fun ss => snd (enc_run V RT CT ER WR rt0 ct0 vr ser (new_enc RT CT ER WR rt0 ct0) (es_ops ss))) l.
 Proof. exact lib_sessions_fresh. Qed.
 Print Assumptions C14_pool_encoder_sessions.
+
+(* with the repair: ARBITRARY operations in every use, the Writer field included *)
+Theorem C14_pool_encoder_sessions_fixed :
+  forall (V RT CT ER WR : Type) (rt0 : RT) (ct0 : CT) (vr : variant)
+         (ser : bool -> bool -> RT -> CT -> V -> ser_res RT CT ER),
+  v_resetbuffer_off vr = true -> v_free_writer vr = true ->
+  forall (l : list (esession V WR)) (p : epool RT CT ER WR),
+  Forall (fun e => e = new_enc RT CT ER WR rt0 ct0) p ->
+  Forall (fun e => e = new_enc RT CT ER WR rt0 ct0) (fst (esessions_run V RT CT ER WR rt0 ct0 vr ser p l)) /\
+  snd (esessions_run V RT CT ER WR rt0 ct0 vr ser p l) =
+    map (fun ss => snd (enc_run V RT CT ER WR rt0 ct0 vr ser (new_enc RT CT ER WR rt0 ct0) (es_ops ss))) l.
+Proof. exact all_sessions_fresh_fixed. Qed.
+Print Assumptions C14_pool_encoder_sessions_fixed.
 
 (* decoders: FreeDecoder = Simple(false).ResetBuffer() clears input, mode, reference list, class
    list, error and all five options -- and keeps exactly one thing: dec.buf when a reader is
    attached, WHOEVER that buffer belongs to *)
 Theorem C14_free_decoder_keeps_only_buffer :
-  forall (DR DC ER : Type) (dr0 : DR) (dc0 : DC) (s : dec DR DC ER),
-  free_dec DR DC ER dr0 dc0 s =
+  forall (DR DC ER : Type) (dr0 : DR) (dc0 : DC) (vr : variant) (s : dec DR DC ER),
+  free_dec DR DC ER dr0 dc0 vr s =
   {| d_in := []; d_buf := if d_from_reader s then d_buf s else BufNil; d_from_reader := false;
      d_simple := false; d_refer := dr0; d_cls := dc0; d_err := None; d_opts := opts0 |}.
 Proof. exact free_dec_char. Qed.
@@ -101,18 +128,18 @@ Print Assumptions C14_free_decoder_keeps_only_buffer.
 
 (* guard: the buffer kept is not a slice of a caller *)
 Theorem C14_reset_is_fresh_decoder_partial :
-  forall (DT DV DR DC ER : Type) (dr0 : DR) (dc0 : DC)
+  forall (DT DV DR DC ER : Type) (dr0 : DR) (dc0 : DC) (vr : variant)
          (des : bool -> dopts -> DR -> DC -> option ER -> list byte -> DT -> des_res DV DR DC ER)
          (s : dec DR DC ER),
   (d_from_reader s = true -> norm_buf (d_buf s) = BufNil) ->
-  dec_fresh_equiv DT DV DR DC ER dr0 dc0 des (free_dec DR DC ER dr0 dc0 s).
+  dec_fresh_equiv DT DV DR DC ER dr0 dc0 vr des (free_dec DR DC ER dr0 dc0 vr s).
 Proof. exact free_dec_fresh_partial. Qed.
 Print Assumptions C14_reset_is_fresh_decoder_partial.
 
 (* reachable through the pool: GetDecoder().ResetBytes(mine) ... ResetReader(r) ... FreeDecoder: the pool
    now holds a decoder whose read buffer is the first user's slice *)
 Theorem C14_reset_is_fresh_decoder_refuted :
-  ~ dec_fresh_equiv unit dval drefs unit cerr [] tt cdes (c_free_dec (fst (c_dec_run c_new_dec dhist_buf))).
+  ~ dec_fresh_equiv unit dval drefs unit cerr [] tt as_found cdes (c_free_dec (fst (c_dec_run c_new_dec dhist_buf))).
 Proof. exact pool_dec_buffer_refuted. Qed.
 Print Assumptions C14_reset_is_fresh_decoder_refuted.
 
@@ -135,16 +162,29 @@ Print Assumptions C14_pooled_decoder_hang.
    each use takes its input from one kind of source (never ResetBytes, or never ResetReader: what
    Formatter.Unmarshal, UnmarshalFromReader and the rpc codecs do), and all choices of the pool *)
 Theorem C14_pool_decoder_sessions :
-  forall (DT DV DR DC ER : Type) (dr0 : DR) (dc0 : DC)
+  forall (DT DV DR DC ER : Type) (dr0 : DR) (dc0 : DC) (vr : variant)
          (des : bool -> dopts -> DR -> DC -> option ER -> list byte -> DT -> des_res DV DR DC ER)
          (l : list (dsession DT)) (p : dpool DR DC ER),
   Forall (fun e => dec_same e (new_dec DR DC ER dr0 dc0)) p ->
   Forall (fun ss => one_source (dss_ops ss) = true) l ->
-  Forall (fun e => dec_same e (new_dec DR DC ER dr0 dc0)) (fst (dsessions_run DT DV DR DC ER dr0 dc0 des p l)) /\
-  snd (dsessions_run DT DV DR DC ER dr0 dc0 des p l) =
-    map (fun ss => snd (dec_run DT DV DR DC ER dr0 dc0 des (new_dec DR DC ER dr0 dc0) (dss_ops ss))) l.
+  Forall (fun e => dec_same e (new_dec DR DC ER dr0 dc0)) (fst (dsessions_run DT DV DR DC ER dr0 dc0 vr des p l)) /\
+  snd (dsessions_run DT DV DR DC ER dr0 dc0 vr des p l) =
+    map (fun ss => snd (dec_run DT DV DR DC ER dr0 dc0 vr des (new_dec DR DC ER dr0 dc0) (dss_ops ss))) l.
 Proof. exact sessions_fresh. Qed.
 Print Assumptions C14_pool_decoder_sessions.
+
+(* with hooks/c14-fix-decoder-resetreader.patch: ARBITRARY operations in every use *)
+Theorem C14_pool_decoder_sessions_fixed :
+  forall (DT DV DR DC ER : Type) (dr0 : DR) (dc0 : DC) (vr : variant)
+         (des : bool -> dopts -> DR -> DC -> option ER -> list byte -> DT -> des_res DV DR DC ER),
+  v_resetreader_drops vr = true ->
+  forall (l : list (dsession DT)) (p : dpool DR DC ER),
+  Forall (fun e => dec_same e (new_dec DR DC ER dr0 dc0)) p ->
+  Forall (fun e => dec_same e (new_dec DR DC ER dr0 dc0)) (fst (dsessions_run DT DV DR DC ER dr0 dc0 vr des p l)) /\
+  snd (dsessions_run DT DV DR DC ER dr0 dc0 vr des p l) =
+    map (fun ss => snd (dec_run DT DV DR DC ER dr0 dc0 vr des (new_dec DR DC ER dr0 dc0) (dss_ops ss))) l.
+Proof. exact all_dsessions_fresh_fixed. Qed.
+Print Assumptions C14_pool_decoder_sessions_fixed.
 
 (* outside the pool: the mode switch Simple(true) of a decoder used in reference mode keeps the
    reference list, and 'r' reads it in simple mode too: a reused decoder returns an object of
@@ -157,20 +197,28 @@ Proof. exact dec_simple_true_refuted. Qed.
 Print Assumptions C14_decoder_simple_true_refuted.
 
 Theorem C14_decoder_simple_true_partial :
-  forall (DT DV DR DC ER : Type) (dr0 : DR) (dc0 : DC)
+  forall (DT DV DR DC ER : Type) (dr0 : DR) (dc0 : DC) (vr : variant)
          (des : bool -> dopts -> DR -> DC -> option ER -> list byte -> DT -> des_res DV DR DC ER)
          (s : dec DR DC ER) (input : list byte),
   d_refer s = dr0 -> d_err s = None -> d_opts s = opts0 ->
-  dec_same (fst (dec_step DT DV DR DC ER dr0 dc0 des (dset_simple DR DC ER dr0 dc0 true s) (DResetBytes input)))
+  dec_same (fst (dec_step DT DV DR DC ER dr0 dc0 vr des (dset_simple DR DC ER dr0 dc0 vr true s) (DResetBytes input)))
            (new_decoder DR DC ER dr0 dc0 input).
 Proof. exact dsimple_true_partial. Qed.
 Print Assumptions C14_decoder_simple_true_partial.
 
+(* with hooks/c14-fix-decoder-simple-reset.patch every mode switch empties both tables *)
+Theorem C14_decoder_mode_switch_fixed :
+  forall (DR DC ER : Type) (dr0 : DR) (dc0 : DC) (vr : variant) (b : bool) (s : dec DR DC ER),
+  v_reset_refer_always vr = true ->
+  d_refer (dset_simple DR DC ER dr0 dc0 vr b s) = dr0 /\ d_cls (dset_simple DR DC ER dr0 dc0 vr b s) = dc0.
+Proof. exact dsimple_resets_fixed. Qed.
+Print Assumptions C14_decoder_mode_switch_fixed.
+
 (* ... which is why the rpc codecs are fine: they call Reset() in reference mode first *)
 Theorem C14_codec_reset_then_simple :
-  forall (DR DC ER : Type) (dr0 : DR) (dc0 : DC) (s : dec DR DC ER),
+  forall (DR DC ER : Type) (dr0 : DR) (dc0 : DC) (vr : variant) (s : dec DR DC ER),
   d_simple s = false ->
-  d_refer (dset_simple DR DC ER dr0 dc0 true (dreset DR DC ER dr0 dc0 s)) = dr0.
+  d_refer (dset_simple DR DC ER dr0 dc0 vr true (dreset DR DC ER dr0 dc0 vr s)) = dr0.
 Proof. exact dreset_then_simple_true. Qed.
 Print Assumptions C14_codec_reset_then_simple.
 
@@ -229,6 +277,17 @@ Theorem C14_registry_linearizable_refuted_mutual :
              map out (threads st) <> map seq_out vs_mutual.
 Proof. exact refuted_mutual. Qed.
 Print Assumptions C14_registry_linearizable_refuted_mutual.
+
+(* Shape 3: two goroutines build the SAME self-recursive type at once; the recursion handler of one is
+   the other's placeholder.  The inner value is written with its class already defined and ZERO
+   fields: well-formed output, fields silently dropped (found by the first-use race search) *)
+Theorem C14_registry_linearizable_refuted_same_type :
+  exists st, run te_same false (init vs_same) sched_same = Some st /\
+             finished st = true /\
+             map out (threads st) = [[Full 0; Half 0]; [Full 0; Full 0]] /\
+             map out (threads st) <> map seq_out vs_same.
+Proof. exact refuted_same. Qed.
+Print Assumptions C14_registry_linearizable_refuted_same_type.
 
 (* partial 1, warm types: when every type has a complete coder and none is half built, every
    interleaving of any number of calls writes what each call writes alone *)
@@ -323,6 +382,8 @@ Example ex_wf_enclosing : wf_tenv te_enclosing /\ Forall (wf_val te_enclosing) v
 Proof. exact wf_enclosing. Qed.
 Example ex_wf_mutual : wf_tenv te_mutual /\ Forall (wf_val te_mutual) vs_mutual.
 Proof. exact wf_mutual. Qed.
+Example ex_wf_same : wf_tenv te_same /\ Forall (wf_val te_same) vs_same.
+Proof. exact wf_same. Qed.
 (* the refuting schedules are not isolated; the sequential ones are *)
 Example ex_not_isolated : isolated te_enclosing (init vs_enclosing) sched_enclosing = false.
 Proof. vm_compute. reflexivity. Qed.
